@@ -200,6 +200,9 @@ VERUS = {
     'ctrl': dict(props=['C01', 'C06', 'C13', 'C02', 'C10', 'C18'], tier='quick',
                  desc='control-byte logic of the table core on extracted text over a Vec<u8> view of the control array, all table sizes, both widths: set_ctrl (mirror index, mirror invariant, frame), set_ctrl_hash, replace_ctrl_hash, is_bucket_full, record_item_insert_at (accounting F1), erase (EMPTY/DELETED, accounting, frame, no tombstone below one group), Tag, probe_seq; every control-byte access in bounds',
                  paired={}),
+    'glue': dict(props=['C01', 'C06', 'C14'], tier='quick',
+                 desc='RawTable::insert and RawTable::insert_in_slot on extracted text against the contracts of find_insert_slot, reserve and record_item_insert_at: the slot handed to insert_in_slot is an EMPTY/DELETED bucket of the table as it is AFTER any reserve, an EMPTY bucket is consumed only while growth is left, mirror invariant and item count maintained',
+                 paired={}),
     'grow': dict(props=['C13', 'C08', 'C12'], tier='quick',
                  desc='reserve_rehash_inner on extracted text against the contracts of rehash_in_place and resize_inner: success gives room and loses nothing, tombstones are reclaimed in place exactly when len+additional <= capacity/2, otherwise growth to at least max(len+additional, capacity+1), errors only in fallible mode with nothing changed, unrepresentable requests reported',
                  paired={}),
